@@ -80,8 +80,7 @@ func (v *Verifier) freshResults(st *State, sig *types.Signature, why string) []*
 func (v *Verifier) havocAll(st *State, why string) {
 	for _, k := range sortedKeys(st.heap) {
 		h := st.heap[k]
-		h.Base = v.Y.fresh(v.D, "hall_"+why, h.arraySort())
-		h.Writes = nil
+		h.regionHavoc(v.Y.fresh(v.D, "hall_"+why, h.arraySort()), predAll)
 		if v.col != nil {
 			st.colW = append(st.colW, wrec{key: "ALLKEY:" + k})
 		}
@@ -602,8 +601,22 @@ func (v *Verifier) havocLoc(st *State, l modLoc, in ssa.Instruction) {
 		sel := mk(h.ElSort, "select", nb, p)
 		in := tAnd(mk("Bool", "(_ is zz_fld)", p), tEq(mk("Int", "zz_fld_idx", p), l.addr))
 		st.assume(mk("Bool", "forall ((zz_qp Ptr))", withPattern(tImp(tNot(in), tEq(sel, mk(h.ElSort, "select", oldArr, p))), sel)))
-		h.Base = nb
-		h.Writes = nil
+		fid := l.addr
+		h.regionHavoc(nb, func(a *Term) int {
+			if a.Op == "zz_fld" {
+				if termEq(a.Args[1], fid) {
+					return 1
+				}
+				if d, ok := provablyDistinct(a.Args[1], fid); ok && d {
+					return 0
+				}
+				return -1
+			}
+			if isCtor(a) {
+				return 0
+			}
+			return -1
+		})
 		if v.col != nil {
 			st.colW = append(st.colW, wrec{l.key, mk("Ptr", "zz_fld", v.Y.fresh(v.D, "anyobj", "Ptr"), l.addr)})
 		}
@@ -625,8 +638,15 @@ func (v *Verifier) havocLoc(st *State, l modLoc, in ssa.Instruction) {
 		p := mk("Ptr", "zz_qp")
 		sel := mk(h.ElSort, "select", nb, p)
 		st.assume(mk("Bool", "forall ((zz_qp Ptr))", withPattern(tImp(tNot(mk("Bool", "(_ is zz_elem)", p)), tEq(sel, mk(h.ElSort, "select", oldArr, p))), sel)))
-		h.Base = nb
-		h.Writes = nil
+		h.regionHavoc(nb, func(a *Term) int {
+			if a.Op == "zz_elem" {
+				return 1
+			}
+			if isCtor(a) {
+				return 0
+			}
+			return -1
+		})
 		if v.col != nil {
 			st.colW = append(st.colW, wrec{l.key, pElem(v.Y.fresh(v.D, "anybase", "Ptr"), v.Y.fresh(v.D, "anyidx", "Int"))})
 		}
@@ -650,8 +670,7 @@ func (v *Verifier) havocLoc(st *State, l modLoc, in ssa.Instruction) {
 			}
 		}
 		v.frameCheckLoc(st, l.key, mk("Ptr", "zz_anyaddr"), in)
-		h.Base = v.Y.fresh(v.D, "hk", h.arraySort())
-		h.Writes = nil
+		h.regionHavoc(v.Y.fresh(v.D, "hk", h.arraySort()), predAll)
 		if v.col != nil {
 			st.colW = append(st.colW, wrec{key: "ALLKEY:" + l.key})
 		}
@@ -667,8 +686,25 @@ func (v *Verifier) havocRegion(st *State, h *HeapArr, base *Term) {
 	in := inBackingArray(p, base)
 	sel := mk(h.ElSort, "select", nb, p)
 	st.assume(mk("Bool", "forall ((zz_qp Ptr))", withPattern(tImp(tNot(in), tEq(sel, mk(h.ElSort, "select", oldArr, p))), sel)))
-	h.Base = nb
-	h.Writes = nil
+	h.regionHavoc(nb, func(a *Term) int {
+		q := a
+		for q.Op == "zz_fld" {
+			q = q.Args[0]
+		}
+		if q.Op == "zz_elem" {
+			if termEq(q.Args[0], base) {
+				return 1
+			}
+			if d, ok := provablyDistinct(q.Args[0], base); ok && d {
+				return 0
+			}
+			return -1
+		}
+		if isCtor(q) {
+			return 0
+		}
+		return -1
+	})
 }
 
 func withPattern(body *Term, pats ...*Term) *Term {
@@ -1007,9 +1043,9 @@ func (v *Verifier) appendBuiltin(st *State, tg *callTarget, bind ssa.Value, in s
 				i := mk("Int", "zz_qi")
 				lo := tAdd(slOff(s), slLen(s))
 				stA.assume(mk("Bool", "forall ((zz_qi Int))", tImp(tOr(tCmp("<", i, lo), tCmp(">=", i, tAdd(lo, n))),
-					tEq(mk(h.ElSort, "select", h.Base, rel(slBase(s), i)), mk(h.ElSort, "select", oldArr, rel(slBase(s), i))))))
+					tEq(mk(h.ElSort, "select", h.arrayTerm(), rel(slBase(s), i)), mk(h.ElSort, "select", oldArr, rel(slBase(s), i))))))
 				stA.assume(mk("Bool", "forall ((zz_qi Int))", tImp(tAnd(tCmp("<=", intLit(0), i), tCmp("<", i, n)),
-					tEq(mk(h.ElSort, "select", h.Base, rel(slBase(s), tAdd(lo, i))), mk(h.ElSort, "select", oldArr, rel(slBase(xs), tAdd(slOff(xs), i)))))))
+					tEq(mk(h.ElSort, "select", h.arrayTerm(), rel(slBase(s), tAdd(lo, i))), mk(h.ElSort, "select", oldArr, rel(slBase(xs), tAdd(slOff(xs), i)))))))
 				if v.col != nil {
 					st.colW = append(st.colW, wrec{h.Key, pElem(slBase(s), v.Y.fresh(v.D, "anyidx", "Int"))})
 				}
@@ -1034,10 +1070,10 @@ func (v *Verifier) appendBuiltin(st *State, tg *callTarget, bind ssa.Value, in s
 			}
 			i := mk("Int", "zz_qi")
 			stB.assume(mk("Bool", "forall ((zz_qi Int))", tImp(tAnd(tCmp("<=", intLit(0), i), tCmp("<", i, slLen(s))),
-				tEq(mk(h.ElSort, "select", h.Base, rel(nb, i)), mk(h.ElSort, "select", oldArr, rel(slBase(s), tAdd(slOff(s), i)))))))
+				tEq(mk(h.ElSort, "select", h.arrayTerm(), rel(nb, i)), mk(h.ElSort, "select", oldArr, rel(slBase(s), tAdd(slOff(s), i)))))))
 			if !(nKnown && nlit <= 4) {
 				stB.assume(mk("Bool", "forall ((zz_qi Int))", tImp(tAnd(tCmp("<=", intLit(0), i), tCmp("<", i, n)),
-					tEq(mk(h.ElSort, "select", h.Base, rel(nb, tAdd(slLen(s), i))), mk(h.ElSort, "select", oldArr, rel(slBase(xs), tAdd(slOff(xs), i)))))))
+					tEq(mk(h.ElSort, "select", h.arrayTerm(), rel(nb, tAdd(slLen(s), i))), mk(h.ElSort, "select", oldArr, rel(slBase(xs), tAdd(slOff(xs), i)))))))
 			}
 		}
 		if nKnown && nlit <= 4 {
@@ -1215,8 +1251,7 @@ func (v *Verifier) applyWriteSet(st *State, w *writeSet) {
 	}
 	for _, k := range sortedKeys(w.allKeys) {
 		if h, ok := st.heap[k]; ok {
-			h.Base = v.Y.fresh(v.D, "hloop", h.arraySort())
-			h.Writes = nil
+			h.regionHavoc(v.Y.fresh(v.D, "hloop", h.arraySort()), predAll)
 		}
 	}
 	for _, k := range sortedKeys(w.regions) {
@@ -1566,6 +1601,12 @@ func (v *Verifier) finishPath(st *State, rs []*Term) {
 			env.vars[con.Results[i]] = Val{r, ty}
 		}
 	}
+	// the function's own ghost updates take effect at return
+	for _, gu := range con.GhostUpd {
+		e2 := *env
+		e2.mode = 0
+		v.ghostUpdate(st, &e2, gu, v.curFn)
+	}
 	env.mode = 2
 	for _, en := range con.Ensures {
 		g, err := env.evalBool(en.Expr)
@@ -1632,6 +1673,7 @@ func (v *Verifier) verifyFunc(fn *ssa.Function, con *Contract, name string) {
 		v.D.add("raw:"+raw, raw)
 	}
 	v.curFn = name
+	v.factSeen = map[string]bool{}
 	v.curCon = con
 	v.curTop = fn
 	v.newCtr = 0
